@@ -166,8 +166,14 @@ func (d *decoder) decode(v interface{}) error {
 				var elemValue reflect.Value
 				if valueType.Kind() == reflect.Slice {
 					var slice = reflect.MakeSlice(valueType, 0, 0)
+					// the elements of the list are structs, or pointers to structs
+					elemType := valueType.Elem()
+					ptrElems := elemType.Kind() == reflect.Ptr
+					if ptrElems {
+						elemType = elemType.Elem()
+					}
 					for {
-						instanceValue := newValueOf(valueType)
+						instanceValue := reflect.New(elemType)
 						v := instanceValue.Interface()
 						var err error
 						if tlv8 == "-" {
@@ -201,7 +207,11 @@ func (d *decoder) decode(v interface{}) error {
 						}
 
 						if err == nil || err == io.EOF {
-							slice = reflect.Append(slice, instanceValue.Elem())
+							if ptrElems {
+								slice = reflect.Append(slice, instanceValue)
+							} else {
+								slice = reflect.Append(slice, instanceValue.Elem())
+							}
 						}
 
 						if d.r.eof() {
